@@ -123,10 +123,15 @@ def mk (cls : String) (args : List String) : Out Obj :=
     | none => .throw .stdOther
   | _, _ => .throw .stdOther
 
+/-- the setters of EthernetII -/
+def ethApply (e : Eth) : List String → Out Eth
+  | ["dst_addr", v] => match parseMac v with | some m => .ok { e with dst := m } | none => .throw .stdOther
+  | ["src_addr", v] => match parseMac v with | some m => .ok { e with src := m } | none => .throw .stdOther
+  | ["payload_type", v] => match natArg v with | some n => .ok { e with ptype := n % 65536 } | none => .throw .stdOther
+  | _ => .throw .stdOther
+
 def apply : Obj → List String → Out Obj
-  | .eth e, ["dst_addr", v] => match parseMac v with | some m => .ok (.eth { e with dst := m }) | none => .throw .stdOther
-  | .eth e, ["src_addr", v] => match parseMac v with | some m => .ok (.eth { e with src := m }) | none => .throw .stdOther
-  | .eth e, ["payload_type", v] => match v.toNat? with | some n => .ok (.eth { e with ptype := n % 65536 }) | none => .throw .stdOther
+  | .eth e, op => (ethApply e op) >>= fun x => pure (.eth x)
   | .dot3 d, op => (d.apply op) >>= fun x => pure (.dot3 x)
   | .llc l, op => (l.apply op) >>= fun x => pure (.llc x)
   | .snap s, op => (s.apply op) >>= fun x => pure (.snap x)
